@@ -831,6 +831,35 @@ example :
 example : (run .signal c2 {} [.handle [1], .handle [2], .handle [3], .handle [4], .handle [5], .report false true]).lostRep = 0 ∧
     (∀ i, Op.report i false ∉ [Op.handle [1], .handle [2], .handle [3], .handle [4], .handle [5], .report false true]) := by decide
 
+/-- what the write callback of `sendLoop` returns on an error after `written` packets of the batch were consumed
+    completely by `net.Buffers.WriteTo`: `len(bufs) - 1` with `len(bufs) = batchLen - written` -/
+def callbackRet (batchLen written : Nat) : Nat := batchLen - written - 1
+
+/-- **the contract between sendLoop's callback and `pop` (`b.ri = b.rm - n`)**: with the callback's return value the
+    `written` packets count as written, exactly the packet the write failed on is given up, and the next `pop` offers
+    exactly the packets after it, in order — nothing is resent, nothing else is skipped. (A callback returning anything
+    else, e.g. the number of packets done, breaks this: seeded bug C31-2; the live tier catches it as e2e-lost / e2e-duplicate.) -/
+theorem callback_contract (c : Cfg) (i : Bool) (b : Buf) (written : Nat) (hpc : b.pc = .writing)
+    (hw : written < (batch b).length) :
+    (writeDone c i b (.err (callbackRet (batch b).length written))).1.done =
+        b.done ++ ((batch b).take written).map (·, Fate.written) ++ (((batch b).drop written).take 1).map (·, Fate.skipped) ∧
+    batch (writeDone c i b (.err (callbackRet (batch b).length written))).1 = (batch b).drop (written + 1) := by
+  have hl := batch_length b
+  have h1 : ¬ ((batch b).length ≤ callbackRet (batch b).length written) := by unfold callbackRet; omega
+  have h2 : (batch b).length - callbackRet (batch b).length written - 1 = written := by unfold callbackRet; omega
+  simp only [writeDone, hpc, h1, h2]
+  refine ⟨by simp, ?_⟩
+  simp only [batch, List.drop_drop]
+  simp
+  congr 1
+  unfold callbackRet
+  simp only [batch, List.length_drop] at hw ⊢
+  omega
+
+example :
+    let b := (run .signal c10 {} [.handle [1], .handle [2], .handle [3], .pop false]).b0
+    b.pc = .writing ∧ 0 < (batch b).length ∧ callbackRet (batch b).length 0 = 2 := by decide
+
 /-
   Full statement of C31 and what is NOT proved here (kept as a comment; the check is labelled partial):
 
